@@ -3,9 +3,983 @@ From Coq Require Import List ZArith Bool Arith Lia.
 From DV Require Import Model.C16_ObjGraph.
 Import ListNotations.
 
-Lemma alias_call t a f fa fk args kw :
-  tb_get (register t a f fa fk) a = Some (FPartial f fa fk) /\
-  call (FPartial f fa fk) args kw = call f (fa ++ args) (kw_merge fk kw).
+(* ------------------------------------------------------------------------------------- *)
+(* Heaps                                                                                   *)
+(* ------------------------------------------------------------------------------------- *)
+Lemma upd_length h l o : length (upd h l o) = length h.
+Proof. revert l; induction h as [|x r IH]; destruct l; cbn; auto. Qed.
+
+Lemma nth_error_upd_eq h l o : l < length h -> nth_error (upd h l o) l = Some o.
 Proof.
-  split; [|reflexivity]. unfold register. cbn. now rewrite Nat.eqb_refl.
+  revert l; induction h as [|x r IH]; destruct l; cbn; intros; try lia; auto.
+  apply IH; lia.
+Qed.
+
+Lemma nth_error_upd_neq h l o x : x <> l -> nth_error (upd h l o) x = nth_error h x.
+Proof.
+  revert l x; induction h as [|y r IH]; destruct l, x; cbn; intros; try congruence; auto.
+Qed.
+
+Lemma nth_error_app_l {A} (a b : list A) l : l < length a -> nth_error (a ++ b) l = nth_error a l.
+Proof. intro; apply nth_error_app1; auto. Qed.
+
+Lemma nth_error_app_here {A} (a : list A) x : nth_error (a ++ [x]) (length a) = Some x.
+Proof. rewrite nth_error_app2 by lia. now rewrite Nat.sub_diag. Qed.
+
+Lemma nth_error_lt {A} (a : list A) l x : nth_error a l = Some x -> l < length a.
+Proof. intro H. apply nth_error_Some. congruence. Qed.
+
+(* h' keeps everything h has *)
+Definition ext (h h' : heap) : Prop :=
+  length h <= length h' /\ forall l, l < length h -> nth_error h' l = nth_error h l.
+
+Lemma ext_refl h : ext h h.
+Proof. split; auto. Qed.
+
+Lemma ext_trans a b c : ext a b -> ext b c -> ext a c.
+Proof.
+  intros [L1 H1] [L2 H2]; split; [lia|]. intros l Hl. rewrite H2 by lia. now apply H1.
+Qed.
+
+Lemma ext_get h h' l o : ext h h' -> nth_error h l = Some o -> nth_error h' l = Some o.
+Proof. intros [_ H] G. rewrite H; auto. eapply nth_error_lt; eauto. Qed.
+
+Lemma lookup_In l m l' : lookup l m = Some l' -> In (l, l') m.
+Proof.
+  induction m as [|[a b] r IH]; cbn; [discriminate|].
+  destruct (Nat.eqb a l) eqn:E.
+  - intro H; inversion H; subst. apply Nat.eqb_eq in E; subst. now left.
+  - intro H; right; auto.
+Qed.
+
+Lemma inv_lookup_In l' m l : inv_lookup l' m = Some l -> In (l, l') m.
+Proof.
+  induction m as [|[a b] r IH]; cbn; [discriminate|].
+  destruct (Nat.eqb b l') eqn:E.
+  - intro H; inversion H; subst. apply Nat.eqb_eq in E; subst. now left.
+  - intro H; right; auto.
+Qed.
+
+Definition nonref (v : value) : Prop := match v with Ref _ => False | _ => True end.
+
+(* ------------------------------------------------------------------------------------- *)
+(* Reachability; objects whose kind satisfies stop are end points, never entered           *)
+(* ------------------------------------------------------------------------------------- *)
+Inductive reach (stop : kind -> bool) (h : heap) : value -> loc -> Prop :=
+| reach_here l : reach stop h (Ref l) l
+| reach_step l o v x : nth_error h l = Some o -> stop (o_kind o) = false ->
+                       In v (children o) -> reach stop h v x -> reach stop h (Ref l) x.
+
+(* every reference stored in the heap points into the heap *)
+Definition closed (h : heap) : Prop :=
+  forall l o x, nth_error h l = Some o -> In (Ref x) (children o) -> x < length h.
+
+Lemma reach_closed stop h h' v x :
+  closed h -> ext h h' -> (forall y, v = Ref y -> y < length h) ->
+  reach stop h' v x -> x < length h /\ reach stop h v x.
+Proof.
+  intros C E Hv R. induction R as [l|l o v x G S I R IH].
+  - split; [auto|constructor].
+  - assert (Hl : l < length h) by auto.
+    assert (G' : nth_error h l = Some o) by (destruct E as [_ E]; rewrite <- E; auto).
+    destruct IH as [Hx R'].
+    + intros y ->. eapply C; eauto.
+    + split; auto. econstructor; eauto.
+Qed.
+
+Lemma reach_ext stop h h' v x : ext h h' -> reach stop h v x -> reach stop h' v x.
+Proof.
+  intros E R. induction R; [constructor|]. econstructor; eauto. eapply ext_get; eauto.
+Qed.
+
+(* ---- frame: reading does not depend on locations that are not reached ---- *)
+Lemma unfold_frame stop k : forall h v l o,
+  ~ reach stop h v l -> unfold stop k (upd h l o) v = unfold stop k h v.
+Proof.
+  induction k as [|k IH]; intros h v l o NR; destruct v as [z|b|a]; cbn; auto.
+  - destruct (Nat.eq_dec a l) as [->|Ne]; [exfalso; apply NR; constructor|].
+    rewrite nth_error_upd_neq by auto. reflexivity.
+  - destruct (Nat.eq_dec a l) as [->|Ne]; [exfalso; apply NR; constructor|].
+    rewrite nth_error_upd_neq by auto.
+    destruct (nth_error h a) as [oa|] eqn:G; auto.
+    destruct (stop (o_kind oa)) eqn:S; auto.
+    assert (Hc : forall c, In c (children oa) -> unfold stop k (upd h l o) c = unfold stop k h c).
+    { intros c Ic. apply IH. intro R. apply NR. econstructor; eauto. }
+    f_equal.
+    + apply Hc. now left.
+    + apply map_ext_in. intros c Ic. apply Hc. right. apply in_or_app. now left.
+    + apply map_ext_in. intros [n c] Ic. cbn. f_equal. apply Hc. right. apply in_or_app. right.
+      change c with (snd (n, c)). now apply in_map.
+Qed.
+
+Lemma unfold_ext stop k : forall h h' v,
+  closed h -> ext h h' -> (forall y, v = Ref y -> y < length h) ->
+  unfold stop k h' v = unfold stop k h v.
+Proof.
+  induction k as [|k IH]; intros h h' v C E Hv; destruct v as [z|b|a]; cbn; auto.
+  - assert (Ha : a < length h) by auto. destruct E as [_ E]. now rewrite E.
+  - assert (Ha : a < length h) by auto. pose proof E as [_ E']. rewrite E' by auto.
+    destruct (nth_error h a) as [oa|] eqn:G; auto.
+    destruct (stop (o_kind oa)); auto.
+    assert (Hc : forall c, In c (children oa) -> unfold stop k h' c = unfold stop k h c).
+    { intros c Ic. apply IH; auto. intros y ->. eapply C; eauto. }
+    f_equal.
+    + apply Hc. now left.
+    + apply map_ext_in. intros c Ic. apply Hc. right. apply in_or_app. now left.
+    + apply map_ext_in. intros [n c] Ic. cbn. f_equal. apply Hc. right. apply in_or_app. right.
+      change c with (snd (n, c)). now apply in_map.
+Qed.
+
+(* ------------------------------------------------------------------------------------- *)
+(* The copy engine                                                                         *)
+(* ------------------------------------------------------------------------------------- *)
+Lemma mapS_app {A B S} (f : S -> A -> option (S * B)) : forall l s s' ys,
+  mapS f s l = Some (s', ys) -> length ys = length l.
+Proof.
+  induction l as [|x r IH]; cbn; intros s s' ys H.
+  - inversion H; auto.
+  - destruct (f s x) as [[s1 y]|]; [|discriminate].
+    destruct (mapS f s1 r) as [[s2 ys']|] eqn:E; [|discriminate].
+    inversion H; subst. cbn. f_equal. eauto.
+Qed.
+
+Section Engine.
+  Variable pl : kind -> plan.
+  Variable src : heap.
+  Variable dst0 : heap.
+  Let n0 := length dst0.
+
+  Definition atomic_at (l : loc) : Prop :=
+    exists o, nth_error src l = Some o /\ p_atomic (pl (o_kind o)) = true.
+
+  Inductive vmatch (M : memo) : value -> value -> Prop :=
+  | vm_atom z : vmatch M (Atom z) (Atom z)
+  | vm_btype b : vmatch M (BType b) (BType b)
+  | vm_memo l l' : In (l, l') M -> vmatch M (Ref l) (Ref l')
+  | vm_atomic l : atomic_at l -> vmatch M (Ref l) (Ref l).
+
+  Definition omatch (M : memo) (o o' : obj) : Prop :=
+    let p := pl (o_kind o) in
+    o_kind o' = o_kind o /\
+    (if p_cls p then vmatch M (o_cls o) (o_cls o') else o_cls o' = o_cls o) /\
+    (if p_items p then Forall2 (vmatch M) (o_items o) (o_items o') else o_items o' = o_items o) /\
+    map fst (o_attrs o') = map fst (sel_attrs (p_attrs p) (o_attrs o)) /\
+    Forall2 (vmatch M) (map snd (sel_attrs (p_attrs p) (o_attrs o))) (map snd (o_attrs o')).
+
+  Definition incl_memo (M M' : memo) : Prop := forall a b, In (a, b) M -> In (a, b) M'.
+
+  Lemma vmatch_mono M M' v v' : incl_memo M M' -> vmatch M v v' -> vmatch M' v v'.
+  Proof.
+    intros I H; destruct H; [apply vm_atom|apply vm_btype|apply vm_memo; now apply I|now apply vm_atomic].
+  Qed.
+
+  Lemma Forall2_vmatch_mono M M' vs vs' :
+    incl_memo M M' -> Forall2 (vmatch M) vs vs' -> Forall2 (vmatch M') vs vs'.
+  Proof. intros I H; induction H; constructor; eauto using vmatch_mono. Qed.
+
+  Lemma omatch_mono M M' o o' : incl_memo M M' -> omatch M o o' -> omatch M' o o'.
+  Proof.
+    intros I (K & C & It & N & At). repeat split; auto.
+    - destruct (p_cls (pl (o_kind o))); eauto using vmatch_mono.
+    - destruct (p_items (pl (o_kind o))); eauto using Forall2_vmatch_mono.
+    - eauto using Forall2_vmatch_mono.
+  Qed.
+
+  (* P: targets whose object is still a placeholder (their copy is in progress) *)
+  Record Inv (P : list loc) (st : state) : Prop := {
+    inv_ext : ext dst0 (fst st);
+    inv_memo : forall l l', In (l, l') (snd st) ->
+        n0 <= l' < length (fst st) /\
+        exists o, nth_error src l = Some o /\ p_atomic (pl (o_kind o)) = false /\
+                  (In l' P \/ exists o', nth_error (fst st) l' = Some o' /\ omatch (snd st) o o');
+    inv_cover : forall l', n0 <= l' < length (fst st) -> exists l, In (l, l') (snd st)
+  }.
+
+  (* what one call may do to the state *)
+  Definition step_ok (st st' : state) : Prop :=
+    (exists e, snd st' = e ++ snd st /\ forall a b, In (a, b) e -> length (fst st) <= b) /\
+    length (fst st) <= length (fst st').
+
+  Lemma step_ok_refl st : step_ok st st.
+  Proof. split; [exists []; split; [reflexivity|intros ? ? []]|lia]. Qed.
+
+  Lemma step_ok_trans a b c : step_ok a b -> step_ok b c -> step_ok a c.
+  Proof.
+    intros [(e1 & E1 & B1) L1] [(e2 & E2 & B2) L2]. split; [|lia].
+    exists (e2 ++ e1). split; [rewrite E2, E1; now rewrite app_assoc|].
+    intros x y I. apply in_app_or in I as [I|I]; [apply B2 in I; lia|apply B1 in I; lia].
+  Qed.
+
+  Lemma step_ok_incl st st' : step_ok st st' -> incl_memo (snd st) (snd st').
+  Proof. intros [(e & E & _) _] a b I. rewrite E. apply in_or_app; now right. Qed.
+
+  Definition result_ok (P : list loc) (st : state) (v : value) (st' : state) (v' : value) : Prop :=
+    Inv P st' /\ vmatch (snd st') v v' /\ step_ok st st'.
+
+  Lemma mapS_ok (f : state -> value -> option (state * value)) :
+    (forall P st v st' v', f st v = Some (st', v') -> Inv P st -> result_ok P st v st' v') ->
+    forall vs P st st' vs', mapS f st vs = Some (st', vs') -> Inv P st ->
+      Inv P st' /\ Forall2 (vmatch (snd st')) vs vs' /\ step_ok st st'.
+  Proof.
+    intros Hf. induction vs as [|v r IH]; cbn; intros P st st' vs' H I.
+    - inversion H; subst. split; [auto|split; [constructor|apply step_ok_refl]].
+    - destruct (f st v) as [[s1 y]|] eqn:E1; [|discriminate].
+      destruct (mapS f s1 r) as [[s2 ys]|] eqn:E2; [|discriminate].
+      inversion H; subst.
+      destruct (Hf _ _ _ _ _ E1 I) as (I1 & V1 & S1).
+      destruct (IH _ _ _ _ E2 I1) as (I2 & V2 & S2).
+      split; [auto|split].
+      + constructor; auto. eapply vmatch_mono; [apply step_ok_incl; eauto|auto].
+      + eapply step_ok_trans; eauto.
+  Qed.
+
+  Lemma combine_fst {A B} (a : list A) (b : list B) : length a = length b -> map fst (combine a b) = a.
+  Proof. revert b; induction a; destruct b; cbn; intros; try lia; auto. f_equal; auto. Qed.
+
+  Lemma combine_snd {A B} (a : list A) (b : list B) : length a = length b -> map snd (combine a b) = b.
+  Proof. revert b; induction a; destruct b; cbn; intros; try lia; auto. f_equal; auto. Qed.
+
+  Lemma result_ok_same P st v v' : Inv P st -> vmatch (snd st) v v' -> result_ok P st v st v'.
+  Proof. intros I V. split; [auto|split; [auto|apply step_ok_refl]]. Qed.
+
+  Lemma gcopy_unfold fuel st l :
+    gcopy pl src (S fuel) st (Ref l) =
+      match lookup l (snd st) with
+      | Some l' => Some (st, Ref l')
+      | None =>
+        match nth_error src l with
+        | None => None
+        | Some o =>
+          let p := pl (o_kind o) in
+          if p_atomic p then Some (st, Ref l) else
+          match (if p_cls p then gcopy pl src fuel st (o_cls o) else Some (st, o_cls o)) with
+          | None => None
+          | Some (st1, c') =>
+            let lp := length (fst st1) in
+            let st2 := if p_pre p
+                       then (fst st1 ++ [mkobj (o_kind o) c' [] []], (l, lp) :: snd st1)
+                       else st1 in
+            let sel := sel_attrs (p_attrs p) (o_attrs o) in
+            match mapS (gcopy pl src fuel) st2 (map snd sel) with
+            | None => None
+            | Some (st3, avs) =>
+              match (if p_items p then mapS (gcopy pl src fuel) st3 (o_items o) else Some (st3, o_items o)) with
+              | None => None
+              | Some (st4, its) =>
+                let o' := mkobj (o_kind o) c' its (combine (map fst sel) avs) in
+                if p_pre p then Some ((upd (fst st4) lp o', snd st4), Ref lp)
+                else Some ((fst st4 ++ [o'], (l, length (fst st4)) :: snd st4), Ref (length (fst st4)))
+              end
+            end
+          end
+        end
+      end.
+  Proof. reflexivity. Qed.
+
+  Lemma Inv_ext_len P st : Inv P st -> n0 <= length (fst st).
+  Proof. intros [[L _] _ _]. exact L. Qed.
+
+  Theorem gcopy_ok : forall fuel P st v st' v',
+    gcopy pl src fuel st v = Some (st', v') -> Inv P st -> result_ok P st v st' v'.
+  Proof.
+    induction fuel as [|fuel IH]; intros P st v st' v' H I.
+    { destruct v; cbn in H; inversion H; subst; apply result_ok_same; auto; constructor. }
+    destruct v as [z|b|l];
+      try (cbn in H; inversion H; subst; apply result_ok_same; auto; constructor).
+    rewrite gcopy_unfold in H.
+    destruct (lookup l (snd st)) as [l'|] eqn:EL.
+    { inversion H; subst. apply result_ok_same; auto. apply vm_memo. now apply lookup_In. }
+    destruct (nth_error src l) as [o|] eqn:Go; [|discriminate].
+    cbv zeta in H.
+    destruct (p_atomic (pl (o_kind o))) eqn:Eat.
+    { inversion H; subst. apply result_ok_same; auto. apply vm_atomic. exists o; auto. }
+    (* the class *)
+    assert (Hcls : exists st1 c', (if p_cls (pl (o_kind o)) then gcopy pl src fuel st (o_cls o) else Some (st, o_cls o)) = Some (st1, c')
+                   /\ Inv P st1 /\ step_ok st st1 /\
+                   (if p_cls (pl (o_kind o)) then vmatch (snd st1) (o_cls o) c' else c' = o_cls o)).
+    { destruct (p_cls (pl (o_kind o))).
+      - destruct (gcopy pl src fuel st (o_cls o)) as [[s1 c1]|] eqn:E; [|discriminate].
+        destruct (IH _ _ _ _ _ E I) as (I1 & V1 & S1). exists s1, c1. auto.
+      - exists st, (o_cls o). split; [reflexivity|split; [auto|split; [apply step_ok_refl|reflexivity]]]. }
+    destruct Hcls as (st1 & c' & Ecls & I1 & S1 & Vc). rewrite Ecls in H. clear Ecls.
+    set (lp := length (fst st1)) in *.
+    set (sel := sel_attrs (p_attrs (pl (o_kind o))) (o_attrs o)) in *.
+    destruct (p_pre (pl (o_kind o))) eqn:Epre.
+    - (* memoised first *)
+      set (st2 := (fst st1 ++ [mkobj (o_kind o) c' [] []], (l, lp) :: snd st1)) in *.
+      assert (S12 : step_ok st1 st2).
+      { split; [exists [(l, lp)]; split; [reflexivity|]|cbn; rewrite app_length; lia].
+        intros a b [E|[]]; inversion E; subst; unfold lp; lia. }
+      assert (I2 : Inv (lp :: P) st2).
+      { pose proof (Inv_ext_len _ _ I1) as Ln.
+        destruct I1 as [E1 M1 C1]. constructor; cbn [fst snd st2].
+        - eapply ext_trans; [exact E1|]. split; [rewrite app_length; lia|].
+          intros x Hx. now apply nth_error_app_l.
+        - intros a b [Eq|In1].
+          + inversion Eq; subst a b. split; [rewrite app_length; cbn; unfold lp; lia|].
+            exists o. repeat split; auto. left; now left.
+          + destruct (M1 _ _ In1) as (Bd & oa & Ga & Na & Hm). split; [rewrite app_length; cbn; lia|].
+            exists oa. repeat split; auto. destruct Hm as [Pn|(o' & G' & Om)]; [left; now right|].
+            right. exists o'. split; [rewrite nth_error_app_l; auto; lia|].
+            eapply omatch_mono; [|exact Om]. intros ? ? ?; now right.
+        - intros b Hb. rewrite app_length in Hb; cbn in Hb.
+          destruct (Nat.eq_dec b lp) as [->|Ne]; [exists l; now left|].
+          destruct (C1 b) as (a & Ia); [unfold lp in Ne; lia|]. exists a; now right. }
+      destruct (mapS (gcopy pl src fuel) st2 (map snd sel)) as [[st3 avs]|] eqn:Eat3; [|discriminate].
+      destruct (mapS_ok _ (fun P st v st' v' => IH P st v st' v') _ _ _ _ _ Eat3 I2) as (I3 & V3 & S23).
+      assert (Hit : exists st4 its, (if p_items (pl (o_kind o)) then mapS (gcopy pl src fuel) st3 (o_items o) else Some (st3, o_items o)) = Some (st4, its)
+                    /\ Inv (lp :: P) st4 /\ step_ok st3 st4 /\
+                    (if p_items (pl (o_kind o)) then Forall2 (vmatch (snd st4)) (o_items o) its else its = o_items o)).
+      { destruct (p_items (pl (o_kind o))).
+        - destruct (mapS (gcopy pl src fuel) st3 (o_items o)) as [[s4 its]|] eqn:E; [|discriminate].
+          destruct (mapS_ok _ (fun P st v st' v' => IH P st v st' v') _ _ _ _ _ E I3) as (I4 & V4 & S4).
+          exists s4, its; auto.
+        - exists st3, (o_items o). split; [reflexivity|split; [auto|split; [apply step_ok_refl|reflexivity]]]. }
+      destruct Hit as (st4 & its & Eit & I4 & S34 & Vi). rewrite Eit in H. clear Eit.
+      inversion H; subst st' v'. clear H.
+      pose proof (step_ok_trans _ _ _ S23 S34) as S24.
+      pose proof (step_ok_trans _ _ _ S12 S24) as S14.
+      assert (Llp : lp < length (fst st4)).
+      { destruct S24 as [_ L]. cbn in L. rewrite app_length in L. cbn in L. lia. }
+      assert (Lav : length (map fst sel) = length avs).
+      { apply mapS_app in Eat3. rewrite Eat3. now rewrite !map_length. }
+      set (o' := mkobj (o_kind o) c' its (combine (map fst sel) avs)).
+      assert (Om : omatch (snd st4) o o').
+      { unfold omatch; cbn [o_kind o_cls o_items o_attrs o']. fold sel.
+        split; [reflexivity|]. split; [|split; [|split]].
+        - destruct (p_cls (pl (o_kind o))); auto.
+          eapply vmatch_mono; [|exact Vc]. apply (step_ok_incl _ _ S14).
+        - destruct (p_items (pl (o_kind o))); auto.
+        - now apply combine_fst.
+        - rewrite combine_snd by auto. eapply Forall2_vmatch_mono; [|exact V3].
+          apply (step_ok_incl _ _ S34). }
+      (* the only memo entry with target lp is (l, lp) *)
+      assert (Uniq : forall a, In (a, lp) (snd st4) -> a = l).
+      { intros a Ia. destruct S24 as [(e & Ee & Be) _]. rewrite Ee in Ia.
+        apply in_app_or in Ia as [Ia|Ia].
+        - apply Be in Ia. cbn in Ia. rewrite app_length in Ia; cbn in Ia. unfold lp in Ia. lia.
+        - cbn in Ia. destruct Ia as [Eq|Ia]; [now inversion Eq|].
+          destruct I1 as [_ M1 _]. destruct (M1 _ _ Ia) as ((_ & Hlt) & _). unfold lp in Hlt. lia. }
+      split; [|split].
+      + destruct I4 as [E4 M4 C4]. constructor; cbn [fst snd].
+        * destruct E4 as [L4 E4]. split; [rewrite upd_length; auto|].
+          intros x Hx. rewrite nth_error_upd_neq; auto.
+          pose proof (Inv_ext_len _ _ I1). unfold lp. fold n0 in Hx. lia.
+        * intros a b Iab. destruct (M4 _ _ Iab) as (Bd & oa & Ga & Na & Hm).
+          split; [rewrite upd_length; auto|].
+          exists oa. repeat split; auto.
+          destruct (Nat.eq_dec b lp) as [->|Ne].
+          -- right. exists o'. split; [now apply nth_error_upd_eq|].
+             apply Uniq in Iab. subst a. rewrite Go in Ga. inversion Ga; subst oa. exact Om.
+          -- destruct Hm as [[Eq|Pn]|(ob & Gb & Omb)]; [congruence|now left|].
+             right. exists ob. split; auto. rewrite nth_error_upd_neq; auto.
+        * intros b Hb. rewrite upd_length in Hb. auto.
+      + constructor. apply (step_ok_incl _ _ S24). now left.
+      + eapply step_ok_trans; [exact S1|]. destruct S14 as [X L]. split; [exact X|].
+        cbn [fst]. rewrite upd_length. exact L.
+    - (* memoised once complete *)
+      destruct (mapS (gcopy pl src fuel) st1 (map snd sel)) as [[st3 avs]|] eqn:Eat3; [|discriminate].
+      destruct (mapS_ok _ (fun P st v st' v' => IH P st v st' v') _ _ _ _ _ Eat3 I1) as (I3 & V3 & S13).
+      assert (Hit : exists st4 its, (if p_items (pl (o_kind o)) then mapS (gcopy pl src fuel) st3 (o_items o) else Some (st3, o_items o)) = Some (st4, its)
+                    /\ Inv P st4 /\ step_ok st3 st4 /\
+                    (if p_items (pl (o_kind o)) then Forall2 (vmatch (snd st4)) (o_items o) its else its = o_items o)).
+      { destruct (p_items (pl (o_kind o))).
+        - destruct (mapS (gcopy pl src fuel) st3 (o_items o)) as [[s4 its]|] eqn:E; [|discriminate].
+          destruct (mapS_ok _ (fun P st v st' v' => IH P st v st' v') _ _ _ _ _ E I3) as (I4 & V4 & S4).
+          exists s4, its; auto.
+        - exists st3, (o_items o). split; [reflexivity|split; [auto|split; [apply step_ok_refl|reflexivity]]]. }
+      destruct Hit as (st4 & its & Eit & I4 & S34 & Vi). rewrite Eit in H. clear Eit.
+      inversion H; subst st' v'. clear H.
+      pose proof (step_ok_trans _ _ _ S13 S34) as S14.
+      assert (Lav : length (map fst sel) = length avs).
+      { apply mapS_app in Eat3. rewrite Eat3. now rewrite !map_length. }
+      set (o' := mkobj (o_kind o) c' its (combine (map fst sel) avs)).
+      set (ln := length (fst st4)).
+      assert (Om : omatch (snd st4) o o').
+      { unfold omatch; cbn [o_kind o_cls o_items o_attrs o']. fold sel.
+        split; [reflexivity|]. split; [|split; [|split]].
+        - destruct (p_cls (pl (o_kind o))); auto.
+          eapply vmatch_mono; [|exact Vc]. apply (step_ok_incl _ _ S14).
+        - destruct (p_items (pl (o_kind o))); auto.
+        - now apply combine_fst.
+        - rewrite combine_snd by auto. eapply Forall2_vmatch_mono; [|exact V3].
+          apply (step_ok_incl _ _ S34). }
+      assert (S45 : step_ok st4 (fst st4 ++ [o'], (l, ln) :: snd st4)).
+      { split; [exists [(l, ln)]; split; [reflexivity|]|cbn; rewrite app_length; lia].
+        intros a b [E|[]]; inversion E; subst; unfold ln; lia. }
+      split; [|split].
+      + pose proof (Inv_ext_len _ _ I4) as Ln.
+        destruct I4 as [E4 M4 C4]. constructor; cbn [fst snd].
+        * eapply ext_trans; [exact E4|]. split; [rewrite app_length; lia|].
+          intros x Hx. now apply nth_error_app_l.
+        * intros a b [Eq|Iab].
+          -- inversion Eq; subst a b. split; [rewrite app_length; cbn; unfold ln; lia|].
+             exists o. repeat split; auto. right. exists o'. split; [apply nth_error_app_here|].
+             eapply omatch_mono; [|exact Om]. intros ? ? ?; now right.
+          -- destruct (M4 _ _ Iab) as (Bd & oa & Ga & Na & Hm). split; [rewrite app_length; cbn; lia|].
+             exists oa. repeat split; auto. destruct Hm as [Pn|(ob & Gb & Omb)]; [now left|].
+             right. exists ob. split; [rewrite nth_error_app_l; auto; lia|].
+             eapply omatch_mono; [|exact Omb]. intros ? ? ?; now right.
+        * intros b Hb. rewrite app_length in Hb; cbn in Hb.
+          destruct (Nat.eq_dec b ln) as [->|Ne]; [exists l; now left|].
+          destruct (C4 b) as (a & Ia); [unfold ln in Ne; lia|]. exists a; now right.
+      + constructor. now left.
+      + eapply step_ok_trans; [exact S1|]. eapply step_ok_trans; [exact S14|exact S45].
+  Qed.
+
+End Engine.
+
+(* ------------------------------------------------------------------------------------- *)
+(* What a completed copy satisfies                                                         *)
+(* ------------------------------------------------------------------------------------- *)
+Lemma unfold_nonref stop k h h2 w : nonref w -> unfold stop k h w = unfold stop k h2 w.
+Proof. destruct w; cbn; intro H; [destruct k; reflexivity|destruct k; reflexivity|destruct H]. Qed.
+
+Lemma unfold_stop stop k h l o :
+  nth_error h l = Some o -> stop (o_kind o) = true -> unfold stop k h (Ref l) = TLoc l.
+Proof. intros G S. destruct k; cbn; rewrite G, S; reflexivity. Qed.
+
+Lemma unfold_node stop k h l o :
+  nth_error h l = Some o -> stop (o_kind o) = false ->
+  unfold stop (S k) h (Ref l) =
+    TNode (o_kind o) (unfold stop k h (o_cls o)) (map (unfold stop k h) (o_items o))
+          (map (fun p => (fst p, unfold stop k h (snd p))) (o_attrs o)).
+Proof. intros G S. cbn. rewrite G, S. reflexivity. Qed.
+
+Lemma unfold_cut stop h l o :
+  nth_error h l = Some o -> stop (o_kind o) = false -> unfold stop 0 h (Ref l) = TCut.
+Proof. intros G S. cbn. rewrite G, S. reflexivity. Qed.
+
+Lemma map_attrs_eq {T} (R : value -> value -> Prop) (f f' : value -> T) :
+  (forall x x', R x x' -> f' x' = f x) ->
+  forall A A' : list (nat * value), map fst A' = map fst A -> Forall2 R (map snd A) (map snd A') ->
+  map (fun p => (fst p, f' (snd p))) A' = map (fun p => (fst p, f (snd p))) A.
+Proof.
+  intros Hf. induction A as [|[n a] A IH]; destruct A' as [|[n' a'] A']; cbn; intros N F; try discriminate; auto.
+  inversion N; subst. inversion F; subst. f_equal; [f_equal; auto|auto].
+Qed.
+
+Lemma map_items_eq {T} (R : value -> value -> Prop) (f f' : value -> T) :
+  (forall x x', R x x' -> f' x' = f x) ->
+  forall A A', Forall2 R A A' -> map f' A' = map f A.
+Proof. intros Hf A A' F; induction F; cbn; f_equal; auto. Qed.
+
+Lemma filter_len {A} (f : A -> bool) (l : list A) : length (filter f l) <= length l.
+Proof. induction l as [|x r IH]; cbn; [lia|]. destruct (f x); cbn; lia. Qed.
+
+Lemma sel_attrs_names a (A A' : list (nat * value)) :
+  map fst A' = map fst A -> sel_attrs a A = A -> sel_attrs a A' = A'.
+Proof.
+  destruct a as [| |n]; cbn; auto.
+  - intros N E; subst A. destruct A'; [auto|discriminate].
+  - revert A'. induction A as [|[m x] A IH]; destruct A' as [|[m' x'] A']; cbn; intros N E; try discriminate; auto.
+    inversion N; subst.
+    destruct (Nat.eqb m n) eqn:Em.
+    + f_equal. apply IH; [assumption|]. cbn. injection E. auto.
+    + exfalso. assert (L : length (filter (fun p : nat * value => fst p =? n) A) <= length A) by apply filter_len.
+      rewrite E in L. cbn in L. lia.
+Qed.
+
+Section Completed.
+  Variable pl : kind -> plan.
+  Variable src dst0 : heap.
+  Let n0 := length dst0.
+  Let stop (k : kind) : bool := p_atomic (pl k).
+
+  Definition cls_ok (c : value) : Prop := nonref c \/ exists l, c = Ref l /\ atomic_at pl src l.
+
+  (* nothing of the source objects is dropped or shared by the plan *)
+  Definition faithful : Prop :=
+    forall l o, nth_error src l = Some o -> p_atomic (pl (o_kind o)) = false ->
+      sel_attrs (p_attrs (pl (o_kind o))) (o_attrs o) = o_attrs o /\
+      (p_items (pl (o_kind o)) = false -> Forall nonref (o_items o)) /\
+      (p_cls (pl (o_kind o)) = false -> cls_ok (o_cls o)).
+
+  (* objects returned as they are exist, unchanged, on the destination side *)
+  Definition atomic_kept : Prop :=
+    forall l o, nth_error src l = Some o -> p_atomic (pl (o_kind o)) = true -> nth_error dst0 l = Some o.
+
+  Variables (fuel : nat) (v v' : value) (dst' : heap) (M : memo).
+  Hypothesis Hrun : gcopy pl src fuel (dst0, []) v = Some ((dst', M), v').
+
+  Lemma Inv_init : Inv pl src dst0 [] (dst0, []).
+  Proof.
+    constructor; cbn.
+    - apply ext_refl.
+    - intros ? ? [].
+    - intros l' Hl. lia.
+  Qed.
+
+  Lemma completed :
+    ext dst0 dst' /\ vmatch pl src M v v' /\
+    (forall l l', In (l, l') M -> n0 <= l' < length dst' /\
+        exists o o', nth_error src l = Some o /\ p_atomic (pl (o_kind o)) = false /\
+                     nth_error dst' l' = Some o' /\ omatch pl src M o o') /\
+    (forall l', n0 <= l' < length dst' -> exists l, In (l, l') M).
+  Proof.
+    destruct (gcopy_ok pl src dst0 _ _ _ _ _ _ Hrun Inv_init) as ([E Mm C] & V & _). cbn in *.
+    repeat split; auto; try (apply E); try (apply (Mm _ _ H)).
+    - destruct (Mm _ _ H) as (_ & o & G & Na & [[]|(o' & G' & Om)]). exists o, o'. auto.
+  Qed.
+
+  Hypothesis Hfaith : faithful.
+  Hypothesis Hkept : atomic_kept.
+
+  Lemma atomic_in_dst l o :
+    nth_error src l = Some o -> p_atomic (pl (o_kind o)) = true -> nth_error dst' l = Some o.
+  Proof.
+    intros G A. destruct completed as (E & _). eapply ext_get; eauto.
+  Qed.
+
+  (* ---- equal content: same unfolding at every depth ---- *)
+  Theorem copy_unfold_eq : forall k w w',
+    vmatch pl src M w w' -> unfold stop k dst' w' = unfold stop k src w.
+  Proof.
+    destruct completed as (E & _ & HM & _).
+    induction k as [|k IH]; intros w w' V; destruct V as [z|b|l l' I|l (oa & Ga & Aa)]; try reflexivity.
+    - destruct (HM _ _ I) as (_ & o & o' & G & Na & G' & (K & _)).
+      rewrite (unfold_cut stop src l o), (unfold_cut stop dst' l' o'); auto.
+      unfold stop. now rewrite K.
+    - rewrite (unfold_stop stop 0 src l oa), (unfold_stop stop 0 dst' l oa); auto. eapply atomic_in_dst; eauto.
+    - destruct (HM _ _ I) as (_ & o & o' & G & Na & G' & (K & C & It & N & At)).
+      destruct (Hfaith _ _ G Na) as (Fs & Fi & Fc).
+      rewrite (unfold_node stop k src l o), (unfold_node stop k dst' l' o'); auto;
+        [|unfold stop; now rewrite K].
+      rewrite Fs in N, At.
+      f_equal; auto.
+      + destruct (p_cls (pl (o_kind o))); [now apply IH|].
+        rewrite C. destruct (Fc eq_refl) as [Nr|(a & -> & (ob & Gb & Ab))].
+        * now apply unfold_nonref.
+        * rewrite (unfold_stop stop k src a ob), (unfold_stop stop k dst' a ob); auto. eapply atomic_in_dst; eauto.
+      + destruct (p_items (pl (o_kind o))).
+        * eapply map_items_eq; [|exact It]. intros; now apply IH.
+        * rewrite It. apply map_ext_in. intros x Ix. apply unfold_nonref.
+          specialize (Fi eq_refl). rewrite Forall_forall in Fi. auto.
+      + eapply map_attrs_eq; [|exact N|exact At]. intros; now apply IH.
+    - rewrite (unfold_stop stop (S k) src l oa), (unfold_stop stop (S k) dst' l oa); auto. eapply atomic_in_dst; eauto.
+  Qed.
+
+  Corollary copy_equal : forall k, unfold stop k dst' v' = unfold stop k src v.
+  Proof. intro k. apply copy_unfold_eq. apply completed. Qed.
+
+  (* ---- separation: what the copy reaches is new, or one of the objects shared on purpose ---- *)
+  Definition good (w : value) : Prop :=
+    match w with Ref x => n0 <= x < length dst' \/ atomic_at pl src x | _ => True end.
+
+  Lemma vmatch_good w w' : vmatch pl src M w w' -> good w'.
+  Proof.
+    destruct completed as (_ & _ & HM & _).
+    intros [z|b|l l' I|l A]; cbn; auto. left. apply (HM _ _ I).
+  Qed.
+
+  Lemma Forall2_good A B c : Forall2 (vmatch pl src M) A B -> In c B -> good c.
+  Proof.
+    intros F. induction F; intros Ic; [contradiction|].
+    destruct Ic as [<-|Ic]; [eapply vmatch_good; eauto|auto].
+  Qed.
+
+  Lemma new_children_good l' o' c :
+    n0 <= l' < length dst' -> nth_error dst' l' = Some o' -> In c (children o') -> good c.
+  Proof.
+    destruct completed as (_ & _ & HM & HC).
+    intros Hl G Ic. destruct (HC _ Hl) as (l & I).
+    destruct (HM _ _ I) as (_ & o & o2 & Go & Na & G2 & (K & C & It & N & At)).
+    rewrite G in G2; inversion G2; subst o2. clear G2.
+    destruct (Hfaith _ _ Go Na) as (Fs & Fi & Fc).
+    destruct Ic as [<-|Ic].
+    - destruct (p_cls (pl (o_kind o))); [eapply vmatch_good; eauto|].
+      rewrite C. destruct (Fc eq_refl) as [Nr|(a & -> & A)]; [destruct (o_cls o); cbn; auto; contradiction|].
+      cbn. now right.
+    - apply in_app_or in Ic as [Ic|Ic].
+      + destruct (p_items (pl (o_kind o))).
+        * eapply Forall2_good; eauto.
+        * rewrite It in Ic. specialize (Fi eq_refl). rewrite Forall_forall in Fi. apply Fi in Ic.
+          destruct c; cbn; auto; contradiction.
+      + eapply Forall2_good; eauto.
+  Qed.
+
+  Lemma reach_good w x : good w -> reach stop dst' w x -> n0 <= x < length dst' \/ atomic_at pl src x.
+  Proof.
+    intros Gd R. induction R as [l|l o c x G S Ic R IH]; [exact Gd|].
+    apply IH. cbn in Gd. destruct Gd as [Hl|(oa & Ga & Aa)].
+    - eapply new_children_good; eauto.
+    - pose proof (atomic_in_dst _ _ Ga Aa) as G2. rewrite G in G2; inversion G2; subst oa.
+      unfold stop in S. congruence.
+  Qed.
+
+  Theorem copy_reach_fresh x :
+    reach stop dst' v' x -> n0 <= x < length dst' \/ atomic_at pl src x.
+  Proof. apply reach_good. eapply vmatch_good. apply completed. Qed.
+
+  (* ---- the result is again a heap the same theorems apply to (same interpreter: src = dst0) ---- *)
+  Hypothesis Hsame : src = dst0.
+
+  Lemma atomic_lt x : atomic_at pl src x -> x < n0.
+  Proof. intros (o & G & _). rewrite Hsame in G. eapply nth_error_lt; eauto. Qed.
+
+  Lemma closed_result : closed src -> closed dst'.
+  Proof.
+    intros C l o x G Ic. destruct completed as (E & _).
+    destruct (Nat.lt_ge_cases l n0) as [Hl|Hl].
+    - destruct E as [L E]. rewrite E in G by exact Hl. rewrite <- Hsame in G.
+      specialize (C _ _ _ G Ic). rewrite Hsame in C. fold n0 in L, C. lia.
+    - assert (Hl' : n0 <= l < length dst') by (split; [auto|eapply nth_error_lt; eauto]).
+      pose proof (new_children_good _ _ _ Hl' G Ic) as Gd. cbn in Gd.
+      destruct Gd as [?|A]; [lia|]. apply atomic_lt in A. lia.
+  Qed.
+
+End Completed.
+
+(* ------------------------------------------------------------------------------------- *)
+(* Termination: enough fuel for everything that reads finitely                             *)
+(* ------------------------------------------------------------------------------------- *)
+Lemma mapS_total {A B S} (f : S -> A -> option (S * B)) (l : list A) :
+  (forall x, In x l -> forall s, exists r, f s x = Some r) -> forall s, exists r, mapS f s l = Some r.
+Proof.
+  induction l as [|x r IH]; cbn; intros H s; [eexists; reflexivity|].
+  destruct (H x (or_introl eq_refl) s) as ([s1 y] & E). rewrite E.
+  destruct (IH (fun y Iy => H y (or_intror Iy)) s1) as ([s2 ys] & E2). rewrite E2. eexists; reflexivity.
+Qed.
+
+Lemma sel_attrs_In a (A : list (nat * value)) x : In x (sel_attrs a A) -> In x A.
+Proof. destruct a; cbn; auto; [contradiction|]. intro H. apply filter_In in H. tauto. Qed.
+
+Lemma forallb_In {A} (f : A -> bool) l x : forallb f l = true -> In x l -> f x = true.
+Proof. rewrite forallb_forall. auto. Qed.
+
+Lemma gcopy_total pl src : forall k fuel st v,
+  nocut (unfold (fun kd => p_atomic (pl kd)) k src v) = true -> k < fuel ->
+  exists r, gcopy pl src fuel st v = Some r.
+Proof.
+  induction k as [|k IH]; intros fuel st v N Hk; (destruct fuel as [|fuel]; [lia|]);
+    destruct v as [z|b|l]; try (eexists; reflexivity).
+  - rewrite gcopy_unfold. destruct (lookup l (snd st)); [eexists; reflexivity|].
+    cbn in N. destruct (nth_error src l) as [o|]; [|discriminate].
+    cbv zeta. destruct (p_atomic (pl (o_kind o))); [eexists; reflexivity|discriminate].
+  - rewrite gcopy_unfold. destruct (lookup l (snd st)); [eexists; reflexivity|].
+    cbn in N. destruct (nth_error src l) as [o|]; [|discriminate].
+    cbv zeta. destruct (p_atomic (pl (o_kind o))); [eexists; reflexivity|].
+    cbn in N. apply andb_true_iff in N as [N Nat_]. apply andb_true_iff in N as [Nc Ni].
+    assert (Hc : forall st0, exists r, (if p_cls (pl (o_kind o)) then gcopy pl src fuel st0 (o_cls o) else Some (st0, o_cls o)) = Some r).
+    { intro st0. destruct (p_cls (pl (o_kind o))); [apply IH; auto; lia|eexists; reflexivity]. }
+    destruct (Hc st) as ([st1 c'] & Ec). rewrite Ec.
+    match goal with |- context [mapS ?f ?s (map snd ?sel)] =>
+      assert (T : forall s0, exists r, mapS f s0 (map snd sel) = Some r) end.
+    { apply mapS_total. intros x Ix s0. apply IH; [|lia]. apply in_map_iff in Ix as ([n y] & <- & Iy). apply sel_attrs_In in Iy.
+      assert (Hq : In (n, unfold (fun kd => p_atomic (pl kd)) k src y)
+                      (map (fun p => (fst p, unfold (fun kd => p_atomic (pl kd)) k src (snd p))) (o_attrs o))).
+      { apply in_map_iff. exists (n, y). auto. }
+      apply (forallb_In _ _ _ Nat_) in Hq. exact Hq. }
+    match goal with |- context [mapS ?f ?s (map snd ?sel)] => destruct (T s) as ([st3 avs] & E3) end.
+    rewrite E3.
+    assert (Hi : exists r, (if p_items (pl (o_kind o)) then mapS (gcopy pl src fuel) st3 (o_items o) else Some (st3, o_items o)) = Some r).
+    { destruct (p_items (pl (o_kind o))); [|eexists; reflexivity]. apply mapS_total.
+      intros x Ix s0. apply IH; [|lia]. apply (forallb_In _ _ _ Ni). now apply in_map. }
+    destruct Hi as ([st4 its] & E4). rewrite E4.
+    destruct (p_pre (pl (o_kind o))); eexists; reflexivity.
+Qed.
+
+(* ------------------------------------------------------------------------------------- *)
+(* The hypotheses carry over to the heap after the copy                                    *)
+(* ------------------------------------------------------------------------------------- *)
+Lemma atomic_at_ext pl h h' x : ext h h' -> atomic_at pl h x -> atomic_at pl h' x.
+Proof. intros E (o & G & A). exists o. split; auto. eapply ext_get; eauto. Qed.
+
+Lemma faithful_result pl h fuel v v' h' M :
+  gcopy pl h fuel (h, []) v = Some ((h', M), v') -> faithful pl h -> faithful pl h'.
+Proof.
+  intros Hrun F l' o' G' Na'.
+  destruct (completed pl h h _ _ _ _ _ Hrun) as (E & _ & HM & HC).
+  assert (Hcls : forall c, cls_ok pl h c -> cls_ok pl h' c).
+  { intros c [Nr|(a & -> & A)]; [now left|right]. exists a. split; auto. eapply atomic_at_ext; eauto. }
+  destruct (Nat.lt_ge_cases l' (length h)) as [Hl|Hl].
+  - destruct E as [_ E]. rewrite E in G' by exact Hl.
+    destruct (F _ _ G' Na') as (Fs & Fi & Fc). repeat split; auto.
+  - assert (Hl' : length h <= l' < length h') by (split; [auto|eapply nth_error_lt; eauto]).
+    destruct (HC _ Hl') as (l & I).
+    destruct (HM _ _ I) as (_ & o & o2 & Go & Na & G2 & (K & C & It & N & At)).
+    rewrite G' in G2; inversion G2; subst o2. clear G2.
+    destruct (F _ _ Go Na) as (Fs & Fi & Fc). rewrite K.
+    repeat split.
+    + eapply sel_attrs_names; [|exact Fs]. now rewrite N, Fs.
+    + intro Pi. rewrite Pi in It. rewrite It. auto.
+    + intro Pc. rewrite Pc in C. rewrite C. auto.
+Qed.
+
+(* ------------------------------------------------------------------------------------- *)
+(* Changing the stop predicate for a pointwise equal one                                   *)
+(* ------------------------------------------------------------------------------------- *)
+Lemma unfold_stop_ext s1 s2 : (forall k, s1 k = s2 k) -> forall k h v, unfold s1 k h v = unfold s2 k h v.
+Proof.
+  intros Hs. induction k as [|k IH]; intros h v; destruct v as [z|b|l]; cbn; auto;
+    destruct (nth_error h l) as [o|]; auto; rewrite Hs; destruct (s2 (o_kind o)); auto.
+  f_equal; auto.
+  - apply map_ext. auto.
+  - apply map_ext. intros [n a]; cbn. f_equal. auto.
+Qed.
+
+Lemma reach_stop_ext s1 s2 h v x : (forall k, s1 k = s2 k) -> reach s1 h v x -> reach s2 h v x.
+Proof.
+  intros Hs R. induction R; [constructor|]. econstructor; eauto; try (now rewrite <- Hs).
+Qed.
+
+(* ------------------------------------------------------------------------------------- *)
+(* toolbox.clone = copy.deepcopy                                                           *)
+(* ------------------------------------------------------------------------------------- *)
+Definition class_at (h : heap) (x : loc) : Prop := exists o, nth_error h x = Some o /\ o_kind o = KClass.
+
+Lemma deep_atomic k : p_atomic (deep_plan k) = is_class k.
+Proof. destruct k; reflexivity. Qed.
+
+Lemma atomic_class h x : atomic_at deep_plan h x <-> class_at h x.
+Proof.
+  split; intros (o & G & A); exists o; split; auto.
+  - rewrite deep_atomic in A. destruct (o_kind o); cbn in A; congruence.
+  - now rewrite deep_atomic, A.
+Qed.
+
+(* well-formed for cloning: references stay inside the heap; a fitness holds numbers only and nothing
+   but its values (and constraint_violation); the class of every object is a class *)
+Definition deep_ok (h : heap) : Prop := closed h /\ faithful deep_plan h.
+
+Definition inside (h : heap) (v : value) : Prop := forall y, v = Ref y -> y < length h.
+
+Lemma deepcopy_run h v h' v' :
+  deepcopy h v = Some (h', v') -> exists M, gcopy deep_plan h (fuel_for h) (h, []) v = Some ((h', M), v').
+Proof.
+  unfold deepcopy. destruct (gcopy deep_plan h (fuel_for h) (h, []) v) as [[[h2 M] v2]|]; [|discriminate].
+  intro H; inversion H; subst. eauto.
+Qed.
+
+Lemma kept_same pl h : atomic_kept pl h h.
+Proof. intros l o G _. exact G. Qed.
+
+Theorem deepcopy_spec h v h' v' :
+  deep_ok h -> inside h v -> deepcopy h v = Some (h', v') ->
+  ext h h' /\ deep_ok h' /\ inside h' v' /\
+  (forall k, unfold is_class k h' v' = unfold is_class k h v) /\
+  (forall x, reach is_class h' v' x -> length h <= x < length h' \/ class_at h x) /\
+  (forall x, reach is_class h' v x -> x < length h /\ reach is_class h v x).
+Proof.
+  intros [C F] Hv D. destruct (deepcopy_run _ _ _ _ D) as (M & Hrun).
+  pose proof (completed _ _ _ _ _ _ _ _ Hrun) as (E & V & HM & HC).
+  split; [exact E|]. split; [|split; [|split; [|split]]].
+  - split; [eapply closed_result; eauto using kept_same|eapply faithful_result; eauto].
+  - intros y ->. inversion V as [| |a b I|a A]; subst.
+    + apply (HM _ _ I).
+    + destruct E as [L _]. assert (y < length h) by (apply Hv; auto). lia.
+  - intro k. rewrite <- (unfold_stop_ext _ _ deep_atomic k h' v'), <- (unfold_stop_ext _ _ deep_atomic k h v).
+    eapply copy_equal; eauto using kept_same.
+  - intros x R. apply (reach_stop_ext _ (fun k => p_atomic (deep_plan k))) in R; [|intro; now rewrite deep_atomic].
+    destruct (copy_reach_fresh _ _ _ _ _ _ _ _ Hrun F (kept_same _ _) _ R) as [?|A]; [now left|right].
+    now apply atomic_class.
+  - intros x R. eapply reach_closed; eauto.
+Qed.
+
+Lemma class_at_ext h h' x : ext h h' -> class_at h x -> class_at h' x.
+Proof. intros E (o & G & K). exists o; split; auto. eapply ext_get; eauto. Qed.
+
+Lemma inside_ext h h' v : ext h h' -> inside h v -> inside h' v.
+Proof. intros [L _] I y E. specialize (I y E). lia. Qed.
+
+(* ---- frame: a write through one of the two leaves what the other reads unchanged ---- *)
+Theorem clone_frame h v h' v' :
+  deep_ok h -> inside h v -> deepcopy h v = Some (h', v') ->
+  forall x o k,
+    (reach is_class h' v' x -> ~ class_at h x ->
+       unfold is_class k (upd h' x o) v = unfold is_class k h v) /\
+    (reach is_class h' v x -> ~ class_at h x ->
+       unfold is_class k (upd h' x o) v' = unfold is_class k h' v').
+Proof.
+  intros Ok Hv D x o k. destruct (deepcopy_spec _ _ _ _ Ok Hv D) as (E & Ok' & Hv' & Eq & Fr & Old).
+  split; intros R Nc.
+  - destruct (Fr _ R) as [Hx|]; [|contradiction].
+    rewrite unfold_frame.
+    + apply unfold_ext; auto. apply Ok.
+    + intro R2. apply Old in R2. lia.
+  - apply unfold_frame. intro R2. destruct (Fr _ R2) as [Hx|]; [|contradiction].
+    apply Old in R. lia.
+Qed.
+
+Lemma mutate_upd h x m : mutate h x m = h \/ exists o, mutate h x m = upd h x o.
+Proof. unfold mutate. destruct (nth_error h x); eauto. Qed.
+
+Corollary clone_frame_mutate h v h' v' :
+  deep_ok h -> inside h v -> deepcopy h v = Some (h', v') ->
+  forall x m k,
+    (reach is_class h' v' x -> ~ class_at h x ->
+       unfold is_class k (mutate h' x m) v = unfold is_class k h v) /\
+    (reach is_class h' v x -> ~ class_at h x ->
+       unfold is_class k (mutate h' x m) v' = unfold is_class k h v).
+Proof.
+  intros Ok Hv D x m k. destruct (deepcopy_spec _ _ _ _ Ok Hv D) as (E & Ok' & Hv' & Eq & Fr & Old).
+  destruct (mutate_upd h' x m) as [->|(o & ->)].
+  - split; intros _ _; [apply unfold_ext; auto; apply Ok|apply Eq].
+  - destruct (clone_frame _ _ _ _ Ok Hv D x o k) as [A B]. split; intros R Nc; [auto|].
+    rewrite B; auto.
+Qed.
+
+(* ---- clone-of-clone chains ---- *)
+Record family (h : heap) (vs : list value) (T : nat -> tree) : Prop := {
+  fam_ok : deep_ok h;
+  fam_eq : forall v, In v vs -> inside h v /\ forall k, unfold is_class k h v = T k;
+  fam_sep : forall i j a b x, i <> j -> nth_error vs i = Some a -> nth_error vs j = Some b ->
+              reach is_class h a x -> reach is_class h b x -> class_at h x
+}.
+
+Lemma family_single h v : deep_ok h -> inside h v -> family h [v] (fun k => unfold is_class k h v).
+Proof.
+  intros Ok Hv. constructor; auto.
+  - intros w [<-|[]]. auto.
+  - intros [|[|i]] [|[|j]] a b x Ne A B; cbn in *; try congruence; try discriminate.
+Qed.
+
+Lemma family_step h vs T i v h' v' :
+  family h vs T -> nth_error vs i = Some v -> deepcopy h v = Some (h', v') -> family h' (vs ++ [v']) T.
+Proof.
+  intros [Ok Eq Sep] Gi D.
+  destruct (Eq v (nth_error_In _ _ Gi)) as [Hv Ev].
+  destruct (deepcopy_spec _ _ _ _ Ok Hv D) as (E & Ok' & Hv' & Eq' & Fr & Old).
+  assert (OldR : forall a x, In a vs -> reach is_class h' a x -> x < length h /\ reach is_class h a x).
+  { intros a x Ia R. eapply reach_closed; eauto; [apply Ok|apply Eq; auto]. }
+  constructor; auto.
+  - intros w Iw. apply in_app_or in Iw as [Iw|[<-|[]]].
+    + destruct (Eq w Iw) as [Hw Ew]. split; [eapply inside_ext; eauto|].
+      intro k. rewrite <- Ew. apply unfold_ext; auto. apply Ok.
+    + split; auto. intro k. now rewrite Eq', Ev.
+  - intros a b c d x Ne Ga Gb Ra Rb.
+    assert (La : a < length vs -> nth_error vs a = Some c) by (intro L; now rewrite nth_error_app1 in Ga).
+    assert (Lb : b < length vs -> nth_error vs b = Some d) by (intro L; now rewrite nth_error_app1 in Gb).
+    assert (Na : length vs <= a -> c = v').
+    { intro L. rewrite nth_error_app2 in Ga by auto. destruct (a - length vs) as [|[|n]]; cbn in Ga; congruence. }
+    assert (Nb : length vs <= b -> d = v').
+    { intro L. rewrite nth_error_app2 in Gb by auto. destruct (b - length vs) as [|[|n]]; cbn in Gb; congruence. }
+    assert (Ba : a < length (vs ++ [v'])) by (apply nth_error_Some; congruence).
+    assert (Bb : b < length (vs ++ [v'])) by (apply nth_error_Some; congruence).
+    rewrite app_length in Ba, Bb; cbn in Ba, Bb.
+    destruct (Nat.lt_ge_cases a (length vs)) as [Ha|Ha]; destruct (Nat.lt_ge_cases b (length vs)) as [Hb|Hb].
+    + specialize (La Ha). specialize (Lb Hb).
+      destruct (OldR _ _ (nth_error_In _ _ La) Ra) as [_ Ra'].
+      destruct (OldR _ _ (nth_error_In _ _ Lb) Rb) as [_ Rb'].
+      eapply class_at_ext; eauto.
+    + specialize (La Ha). rewrite (Nb Hb) in Rb.
+      destruct (OldR _ _ (nth_error_In _ _ La) Ra) as [Lx _].
+      destruct (Fr _ Rb) as [?|C]; [lia|eapply class_at_ext; eauto].
+    + specialize (Lb Hb). rewrite (Na Ha) in Ra.
+      destruct (OldR _ _ (nth_error_In _ _ Lb) Rb) as [Lx _].
+      destruct (Fr _ Ra) as [?|C]; [lia|eapply class_at_ext; eauto].
+    + lia.
+Qed.
+
+Theorem clone_chain_family : forall picks h vs T h' vs',
+  family h vs T -> clone_chain h vs picks = Some (h', vs') -> family h' vs' T.
+Proof.
+  induction picks as [|i r IH]; cbn; intros h vs T h' vs' F H.
+  - inversion H; subst; auto.
+  - destruct (nth_error vs i) as [v|] eqn:Gi; [|discriminate].
+    destruct (deepcopy h v) as [[h1 v1]|] eqn:D; [|discriminate].
+    eapply IH; [|exact H]. eapply family_step; eauto.
+Qed.
+
+(* termination of cloning for objects that read finitely *)
+Theorem deepcopy_total h v d :
+  nocut (unfold is_class d h v) = true -> d <= length h -> exists r, deepcopy h v = Some r.
+Proof.
+  intros N L. unfold deepcopy.
+  destruct (gcopy_total deep_plan h d (fuel_for h) (h, []) v) as ([[h' M] v'] & E).
+  - rewrite (unfold_stop_ext _ _ deep_atomic). exact N.
+  - unfold fuel_for. lia.
+  - rewrite E. eauto.
+Qed.
+
+Fixpoint picks_ok (n : nat) (picks : list nat) : Prop :=
+  match picks with [] => True | i :: r => i < n /\ picks_ok (S n) r end.
+
+Theorem clone_chain_total : forall picks h vs T d,
+  family h vs T -> nocut (T d) = true -> d <= length h -> picks_ok (length vs) picks ->
+  exists r, clone_chain h vs picks = Some r.
+Proof.
+  induction picks as [|i r IH]; cbn; intros h vs T d F N L P; [eauto|].
+  destruct P as [Hi P]. destruct (nth_error vs i) as [v|] eqn:Gi; [|apply nth_error_None in Gi; lia].
+  destruct (fam_eq _ _ _ F v (nth_error_In _ _ Gi)) as [Hv Ev].
+  destruct (deepcopy_total h v d) as ([h1 v1] & D); [now rewrite Ev|auto|]. rewrite D.
+  eapply IH; [eapply family_step; eauto|exact N| |].
+  - destruct (deepcopy_spec _ _ _ _ (fam_ok _ _ _ F) Hv D) as ([L' _] & _). lia.
+  - rewrite app_length; cbn. now rewrite Nat.add_1_r.
+Qed.
+
+(* ------------------------------------------------------------------------------------- *)
+(* pickle round trip                                                                       *)
+(* ------------------------------------------------------------------------------------- *)
+Lemma pickle_atomic k : p_atomic (pickle_plan k) = no_stop k.
+Proof. destruct k; reflexivity. Qed.
+
+Lemma pickle_no_atomic h x : ~ atomic_at pickle_plan h x.
+Proof. intros (o & _ & A). rewrite pickle_atomic in A. discriminate. Qed.
+
+Lemma pickle_faithful h : faithful pickle_plan h.
+Proof.
+  intros l o G _. destruct (o_kind o); cbn; repeat split; auto; discriminate.
+Qed.
+
+Lemma pickle_kept h d : atomic_kept pickle_plan h d.
+Proof. intros l o _ A. rewrite pickle_atomic in A. discriminate. Qed.
+
+Theorem pickle_roundtrip_spec h v h' v' :
+  closed h -> inside h v -> pickle_roundtrip h v = Some (h', v') ->
+  ext h h' /\ closed h' /\ inside h' v' /\
+  (forall k, unfold no_stop k h' v' = unfold no_stop k h v) /\
+  (forall x, reach no_stop h' v' x -> length h <= x < length h') /\
+  (forall x, reach no_stop h' v x -> x < length h /\ reach no_stop h v x).
+Proof.
+  intros C Hv D. unfold pickle_roundtrip in D.
+  destruct (gcopy pickle_plan h (fuel_for h) (h, []) v) as [[[h2 M] v2]|] eqn:Hrun; [|discriminate].
+  inversion D; subst h2 v2. clear D.
+  pose proof (completed _ _ _ _ _ _ _ _ Hrun) as (E & V & HM & HC).
+  split; [exact E|]. split; [|split; [|split; [|split]]].
+  - eapply closed_result; eauto using pickle_faithful, pickle_kept.
+  - intros y ->. inversion V as [| |a b I|a A]; subst.
+    + apply (HM _ _ I).
+    + now apply pickle_no_atomic in A.
+  - intro k. rewrite <- (unfold_stop_ext _ _ pickle_atomic k h' v'), <- (unfold_stop_ext _ _ pickle_atomic k h v).
+    eapply copy_equal; eauto using pickle_faithful, pickle_kept.
+  - intros x R. apply (reach_stop_ext _ (fun k => p_atomic (pickle_plan k))) in R; [|intro; now rewrite pickle_atomic].
+    destruct (copy_reach_fresh _ _ _ _ _ _ _ _ Hrun (pickle_faithful h) (pickle_kept _ _) _ R) as [?|A]; [auto|].
+    now apply pickle_no_atomic in A.
+  - intros x R. eapply reach_closed; eauto.
+Qed.
+
+Theorem pickle_fresh_spec h v h' v' :
+  pickle_fresh h v = Some (h', v') ->
+  closed h' /\ inside h' v' /\ (forall k, unfold no_stop k h' v' = unfold no_stop k h v).
+Proof.
+  intros D. unfold pickle_fresh in D.
+  destruct (gcopy pickle_plan h (fuel_for h) ([], []) v) as [[[h2 M] v2]|] eqn:Hrun; [|discriminate].
+  inversion D; subst h2 v2. clear D.
+  pose proof (completed _ _ _ _ _ _ _ _ Hrun) as (E & V & HM & HC).
+  split; [|split].
+  - intros l o x G Ic.
+    assert (Hl : length (@nil obj) <= l < length h') by (split; [cbn; lia|eapply nth_error_lt; eauto]).
+    pose proof (new_children_good _ _ _ _ _ _ _ _ Hrun (pickle_faithful h) _ _ _ Hl G Ic) as Gd.
+    cbn in Gd. destruct Gd as [?|A]; [lia|now apply pickle_no_atomic in A].
+  - intros y ->. inversion V as [| |a b I|a A]; subst.
+    + apply (HM _ _ I).
+    + now apply pickle_no_atomic in A.
+  - intro k. rewrite <- (unfold_stop_ext _ _ pickle_atomic k h' v'), <- (unfold_stop_ext _ _ pickle_atomic k h v).
+    eapply copy_equal; eauto using pickle_faithful, pickle_kept.
+Qed.
+
+Theorem pickle_total h v d :
+  nocut (unfold no_stop d h v) = true -> d <= length h ->
+  (exists r, pickle_roundtrip h v = Some r) /\ (exists r, pickle_fresh h v = Some r).
+Proof.
+  intros N L. unfold pickle_roundtrip, pickle_fresh. split.
+  - destruct (gcopy_total pickle_plan h d (fuel_for h) (h, []) v) as ([[h' M] v'] & E).
+    + rewrite (unfold_stop_ext _ _ pickle_atomic). exact N.
+    + unfold fuel_for. lia.
+    + rewrite E. eauto.
+  - destruct (gcopy_total pickle_plan h d (fuel_for h) ([], []) v) as ([[h' M] v'] & E).
+    + rewrite (unfold_stop_ext _ _ pickle_atomic). exact N.
+    + unfold fuel_for. lia.
+    + rewrite E. eauto.
 Qed.
